@@ -15,6 +15,18 @@ CHECKS = {
  "C10": ("runtime monitoring: exact-distance oracle (reference Bellman-Ford), path certificate checker and k-smallest-walk multiset fixpoint over results of the real algorithms on generated weighted multigraphs x 9 encodings x 4 cost types",
          "Exploration. dijkstra maps (with/without goal), astar results under zero/consistent/random admissible-inconsistent heuristics and goal sets, and k_shortest_path maps are compared for equality with exact oracles on ~3*10^5 generated inputs per quick run.",
          "Oracles trusted; integer-valued costs so float sums are exact; n<=12, k<=5.", "DESIGN.md 5/C10"),
+ "C11": ("runtime monitoring: reference Bellman-Ford / Floyd-Warshall over Option<i64> plus certificate checkers (tight predecessor tree, closed negative walk, prev-path cost) over results of the real algorithms on signed-weight workloads incl. adversarial insertion orders",
+         "Exploration. Err/Ok verdicts, every distance, every predecessor and every returned cycle are checked on ~2.5*10^5 generated signed-weight graphs per quick run, including negative edges combined with unreachable nodes, negative self-loops and the convex complete DAG that drives label-correcting algorithms to exponential re-relaxation.",
+         "Reference implementations trusted; |w| small so no sum overflows (overflow is outside the statement); n<=11.", "DESIGN.md 5/C11"),
+ "C12": ("runtime monitoring: independent sort-based Kruskal (own union-find) + structural certificate checker over the real element stream (node prefix, membership multiset, acyclicity, edge count n-c, total weight), Kruskal on 9 encodings, Prim on 8, from_elements round trip",
+         "Exploration. Every element stream is judged for all clauses of the statement on ~4*10^5 generated weighted multigraphs per quick run (ties, parallel edges of different weight, disconnected inputs, vacancies).",
+         "Reference Kruskal trusted; integer-valued weights.", "DESIGN.md 5/C12"),
+ "C15": ("runtime monitoring: validity/accessor-consistency checker + bitmask-DP optimum for matchings; feasibility, conservation and min-cut certificate (residual reachability of the returned flow) for ford_fulkerson, on blossom-prone and cancellation-forcing workload families",
+         "Exploration. ~2*10^5 generated inputs per quick run; a matching must be valid and of DP-optimal size, a flow must come with a cut of equal capacity - certificates, so no second flow implementation is trusted.",
+         "DP oracle trusted (n<=14); capacities small integers; the documented known finding (directed storage) is matched by exact signature only.", "DESIGN.md 5/C15"),
+ "C16": ("runtime monitoring: node-deletion oracles (dominance and cut vertices by definition) over results of the real algorithms on generated graphs x encodings, every root, all four accessors",
+         "Exploration. ~4*10^5 generated graphs per quick run; dominator sets, immediate dominators, strict sets, dominated-by sets and articulation-point sets are compared for equality with definition-level oracles.",
+         "Deletion oracles trusted; n<=13.", "DESIGN.md 5/C16"),
 }
 REASON_PENDING = "check under construction in this round (runtime monitoring applies; see DESIGN.md section 5)"
 
